@@ -1,16 +1,21 @@
 /-
 Driver ops of C03 part Docs. Requests (one per line, blank separated):
-  c03.docs.coveralls <oc 0|1> <plus 0|1> <res>*        res = R<abs hex>=<rel hex>=<cov>
+  c03.docs.coveralls <oc 0|1> <plus 0|1> [D<dm>] <res>*   res = R<abs hex>=<rel hex>=<cov>; `D…` see Drv/C03FnOrder;
+                                                        the `functions` of a file are printed in DOCUMENT order
   c03.docs.covdir    <oc 0|1> <res>*
   c03.docs.markdown  <res>*
   c03.docs.files     <res>*
   c03.docs.html      <res>*                             res = R<abs hex>=<rel hex>=<cov>=<n source lines | h<source bytes hex> | x (unreadable)>
+                                                        (the files on DISK: `HtmlDisk.siteOnDisk`, jobs in the order given; `!placed` if an
+                                                        entry's index directory is not the directory of its page)
   c03.docs.lossylines <source bytes hex>                → <n>:<line hex>,<line hex>,…   (`lossyLines`)
 Answers: `panic`, or the canonical text of the document (see the `show…` functions; the harness
 prints the decoded real document the same way).
 -/
 import GrcovModel.Writers.Docs
+import GrcovModel.Writers.HtmlDisk
 import GrcovModel.Drv.Merge
+import GrcovModel.Drv.C03FnOrder
 namespace Grcov.Drv
 open Grcov Grcov.Writers Grcov.Writers.Docs
 
@@ -36,17 +41,20 @@ def showCvFile (f : CvFile) : String :=
   "N" ++ toHex f.name ++ ";C" ++ showOptNats f.coverage ++ ";B" ++ joinWith "," (f.branches.map toString) ++ ";F" ++
     (match f.functions with
      | none => "-"
-     | some fs => joinWith "," ((sortBytesKeys (fs.map fun g => (g.name, g))).map fun (_, g) =>
+     | some fs => joinWith "," (fs.map fun g =>
          s!"{toHex g.name}:{g.start}:{if g.exec then 1 else 0}"))
 
 def handleDocsCoveralls : List String → String
-  | oc :: plus :: rs =>
-    match parseFlag oc, parseFlag plus, rs.mapM parseRes with
-    | some oc, some plus, some rs =>
-      match coverallsDoc oc plus (rs.map (·.1)) with
-      | none => "panic"
-      | some d => "ok " ++ joinWith " " (d.map showCvFile)
-    | _, _, _ => "bad-op"
+  | oc :: plus :: args =>
+    match Grcov.Drv.FnOrder.takeDm args with
+    | some (dm, rs) =>
+      match parseFlag oc, parseFlag plus, rs.mapM parseRes with
+      | some oc, some plus, some rs =>
+        match Grcov.Writers.FnOrder.coveralls dm oc plus (rs.map (·.1)) with
+        | none => "panic"
+        | some d => "ok " ++ joinWith " " (d.map showCvFile)
+      | _, _, _ => "bad-op"
+    | none => "bad-op"
   | _ => "bad-op"
 
 def showInts' (xs : List Int) : String := joinWith "," (xs.map toString)
@@ -98,15 +106,22 @@ def handleDocsHtml (rs : List String) : String :=
   match rs.mapM parseRes with
   | some rs =>
     let src : Path → Option Nat := fun p => ((rs.find? fun r => r.1.abs = p).map (·.2)).join
-    match htmlPages src (rs.map (·.1)) with
+    -- the output directory as a FILE SYSTEM (`Writers/HtmlDisk.lean`): the pages are written in the
+    -- order of the results (one consumer thread), then the indexes; equal to the flat model
+    -- `htmlPages` unless a page file is a directory of another page or an index file a directory
+    match entriesOf src (rs.map (·.1)) with
     | none => "panic"
-    | some site =>
-      let pages := (sortBytesKeys (site.pageFiles.map fun (d, rows) => (UPath.join d, rows))).map fun (d, rows) =>
-        "P" ++ toHex d ++ "[" ++ showInts' rows ++ "]"
-      let idx := (sortBytesKeys (site.indexFiles.map fun (loc, c) => (UPath.join loc, c))).map fun (loc, (k, names)) =>
-        "X" ++ toHex loc ++ "=" ++ (if k.isNone then "G" else "I") ++ "[" ++
-          joinWith "," ((sortBytesKeys (names.map fun f => (f, ()))).map fun (f, _) => toHex f) ++ "]"
-      ("ok " ++ joinWith " " (pages ++ idx)).trimAsciiEnd.toString
+    | some es =>
+      match HtmlDisk.siteOnDisk es with
+      | none => "panic"
+      | some disk =>
+        let pages := (sortBytesKeys (disk.pages.map fun (d, rows) => (UPath.join d, rows))).map fun (d, rows) =>
+          "P" ++ toHex d ++ "[" ++ showInts' rows ++ "]"
+        let idx := (sortBytesKeys (disk.indexes.map fun (loc, c) => (UPath.join loc, c))).map fun (loc, (k, names)) =>
+          "X" ++ toHex loc ++ "=" ++ (if k.isNone then "G" else "I") ++ "[" ++
+            joinWith "," ((sortBytesKeys (names.map fun f => (f, ()))).map fun (f, _) => toHex f) ++ "]"
+        let flag := if HtmlDisk.placedB es then [] else ["!placed"]
+        ("ok " ++ joinWith " " (pages ++ idx ++ flag)).trimAsciiEnd.toString
   | none => "bad-op"
 
 /-- `c03.docs.lossylines <hex>`: the lines `gen_html` sees in these source bytes -/
